@@ -226,7 +226,7 @@ class SStr(object):
 
     def __getattr__(self, name):
         # concretise-and-delegate for anything else
-        if name.startswith("__"):
+        if name.startswith("_"):
             raise AttributeError(name)
         s = self.concretize()
         return getattr(K(s), name)
